@@ -65,6 +65,12 @@ def one():
     return Box(1)
 
 
+@first_command
+def num(n: int = 2):
+    CALLS.append("num")
+    return n
+
+
 @command
 def addn(x, y: int = 1):
     CALLS.append("addn")
